@@ -7,10 +7,10 @@ Import ListNotations.
 Lemma c12_match_data_fresh : gen_c12_match_data_fresh = true.
 Proof. vm_compute. reflexivity. Qed.
 
-(* every statement fact of handleMatch / run / regexpHasCaptureGroups holds (handleCommentMatch, runCommentRules and
+(* every statement fact of handleMatch / run / regexpHasCaptureGroups and the inventory of goCommentRule hold (handleCommentMatch, runCommentRules and
    loadCommentRule are translated, not read as facts) *)
 Lemma c12_facts_hold : forallb snd gen_c12_facts = true.
 Proof. vm_compute. reflexivity. Qed.
 
-Lemma c12_facts_count : (3 <= List.length gen_c12_facts)%nat.
+Lemma c12_facts_count : (4 <= List.length gen_c12_facts)%nat.
 Proof. vm_compute. lia. Qed.
